@@ -222,3 +222,52 @@ def aggregate_errors(n: int, e1: int, e2: int, e3: int, e4: int) -> int:
             members[i].collect_error(Error())
     rr.results = members[:n]
     return rr.error_count()
+
+
+# ------------------------------------------------------------------ O4 fail_all() in a named-paths run
+from vp import kit, kitpaths  # noqa: E402
+
+kit.register("symkf", "symka")
+FA_MEMBERS = [
+    '~id:m0~ $[*][ symkf.nocontrib() == line_number() -> fail()  symka.nocontrib() == line_number() -> fail_all() ]',
+    '~id:m1~ $[*][ push("v", valid()) ]',
+]
+
+
+def failall_oracle(kf, ka):
+    n = kitpaths.NDATA
+    f = 0 <= kf < n
+    a = 0 <= ka < n
+    v1 = [not (a and ka <= i) for i in range(n)]
+    m0 = not (f or a)
+    m1 = not a
+    return (m0, m1, v1, m0 and m1, m0 and m1)
+
+
+@ob(
+    "C04",
+    "O4-fail-all-in-group",
+    pre=["-1 <= kf <= 5 and -1 <= ka <= 5"],
+    post="_ == failall_oracle(kf, ka)",
+    bound="breadth-first run of a group of 2 over a 5-record file; member m0 executes fail() on symbolic line kf and fail_all() on "
+    "symbolic line ka (before, on, or after kf; 'never' included); observed: both members' final verdicts, m1's valid() on every "
+    "line, results_manager.is_valid(group) and the run manifest's all_valid",
+    outside="serial methods (fail_all() there only concerns the calling csvpath); groups of more than 2",
+    encodes=ENC + ["csvpath/matching/functions/validity/fail.py:FailAll._decide_match", "csvpath/csvpaths.py:CsvPaths.fail_all/next_by_line (_fail_all)",
+                   "csvpath/managers/results/results_manager.py:ResultsManager.is_valid", "csvpath/managers/results/results_registrar.py:ResultsRegistrar.all_valid"],
+    tiers={"quick": {"timeout": 1800, "shards": product(kf=[-1, 1, 3])}, "thorough": {"timeout": 5000}},
+)
+def failall_run(kf: int, ka: int) -> Tuple[bool, bool, List[bool], bool, bool]:
+    import os
+
+    kit.HOLD.update(symkf=kf, symka=ka)
+    with NoTracing():
+        root, cs = kitpaths.env({"g": FA_MEMBERS}, policy="collect, print")
+    cs.fast_forward_by_line(filename="data", pathsname="g")
+    rs = cs.results_manager.get_named_results("g")
+    out = (rs[0].csvpath.is_valid, rs[1].csvpath.is_valid, list(rs[1].csvpath.variables.get("v", [])), cs.results_manager.is_valid("g"))
+    with NoTracing():
+        run = os.path.join("archive/g", sorted(os.listdir("archive/g"))[0])
+        man = kitpaths.read_json(os.path.join(run, "manifest.json"))
+        kitpaths.cleanup(root)
+    return out + (man.get("all_valid"),)
